@@ -112,6 +112,10 @@ def cq_term(t):
     if k == "var":
         return "(tv %d)" % t[1]
     if k == "c":
+        if "pair" in json.dumps(t[1]):
+            # fn:pair(..) in a rule is a function application for the parser (typed through
+            # the function type of fn:pair), not a constant: outside the modelled fragment
+            return "(tother [])"
         return "(tk %s)" % cq_dconst(t[1])
     if k == "app":
         args = T.cq_list(cq_term(a) for a in t[2])
